@@ -169,6 +169,8 @@ def run_impl(cfg, events, ops, trace=False, payload_type=bytes, keymode="script"
                     res = "ok"
                 else:
                     raise AssertionError(op)
+            except simnet.Spin:
+                res = "X:SPIN"
             except Exception as e:  # noqa
                 res = "X:" + common.canon_exc(e)
             delta = bytes(sock.sent[before:])
